@@ -1,13 +1,17 @@
 #!/usr/bin/env python3
 """Summarises notes/sensitivity.jsonl (latest trial per mutant and property) into notes/SENSITIVITY.md."""
-import json, os
+import json, os, sys
 VERIF = os.path.dirname(os.path.dirname(os.path.abspath(__file__)))
+sys.path.insert(0, os.path.join(VERIF, "tools"))
+from mutants import MUTANTS  # noqa: E402
+REGISTERED = {(m["name"], p) for m in MUTANTS for p in m["props"]}
 last = {}
 for l in open(os.path.join(VERIF, "notes", "sensitivity.jsonl")):
     r = json.loads(l)
     for p in r.get("props", []):
         if p in r:
-            last[(r["mutant"], p)] = (r[p], r.get("time", ""), r.get("baseline", ""))
+            if (r["mutant"], p) in REGISTERED:
+                last[(r["mutant"], p)] = (r[p], r.get("time", ""), r.get("baseline", ""))
 rows = sorted(last.items(), key=lambda kv: (kv[0][1], kv[0][0]))
 caught = sum(1 for _, (res, _, _) in rows if res.get("exit") == 1)
 with open(os.path.join(VERIF, "notes", "SENSITIVITY.md"), "w") as f:
